@@ -85,7 +85,7 @@ impl Prop for C13 {
         false
     }
     fn rule(&self) -> String {
-        "Q = ~125 literal quantities (every proportional unit name once, plus base/derived/prefixed/compound spellings) and every shipped fact with a typeable full word set (~770), plus the single typeable words of the `files` constants as one-word phrases (pi, G, g0 ...). a*b=b*a for all ordered pairs of Q (quick: all literal pairs, every fact against a 24-element core and 40 facts against everything); a*b=b*a also for five temperatures on offset scales (°C, °F, long names, a prefixed one) against a 24-quantity core and each other; a+b=b+a for the same pairs (incommensurable pairs must fail on both sides); a-a=0 and a/a=1 for all of Q; associativity of + and *, and distributivity written both ways (a*(b+c), (b+c)*a) for all triples over a 40-element core incl. 10 facts (quick 22 incl. 6). Both sides are evaluated by the tool on the same Db and compared in SI normal form. Non-trivial = both sides evaluate to a value; distinct = distinct law instances".into()
+        "Q = ~125 literal quantities (every proportional unit name once, plus base/derived/prefixed/compound spellings) and every shipped fact with a typeable full word set (~770), plus the single typeable words of the `files` constants as one-word phrases (pi, G, g0 ...). a*b=b*a for all ordered pairs of Q (quick: all literal pairs, every fact against a 24-element core and 40 facts against everything); a*b=b*a also for five temperatures on offset scales (°C, °F, long names, a prefixed one) against a 24-quantity core and each other, and (a*b)*c=a*(b*c) with such a temperature in each of the three places over a 12-quantity core; a+b=b+a for the same pairs (incommensurable pairs must fail on both sides); a-a=0 and a/a=1 for all of Q; associativity of + and *, and distributivity written both ways (a*(b+c), (b+c)*a) for all triples over a 40-element core incl. 10 facts (quick 22 incl. 6). Both sides are evaluated by the tool on the same Db and compared in SI normal form. Non-trivial = both sides evaluate to a value; distinct = distinct law instances".into()
     }
     fn assumptions(&self) -> Vec<String> {
         vec!["SI normal form uses the independent unit table".into(), "sums of temperatures on offset scales are excluded (affine scales are not a field under +; no shipped fact uses one); products with such a temperature as a factor are judged (a*b = b*a, both sides read with the degree as an interval)".into(), "fact lookups are compared within one Db instance only".into()]
@@ -135,6 +135,18 @@ impl Prop for C13 {
             for b in core.iter().map(|s| s.as_str()).chain(temps) {
                 let (a, b) = (p(t), p(b));
                 law("a*b-offset", format!("{a} * {b}"), format!("{b} * {a}"), &[], sink);
+            }
+        }
+        // ... and so does associativity, with the temperature in each of the three places
+        let small: Vec<String> = core.iter().step_by(2).cloned().collect();
+        for t in temps {
+            for b in &small {
+                for c in &small {
+                    let (t, b, c) = (p(t), p(b), p(c));
+                    law("assoc*-offset", format!("({t} * {b}) * {c}"), format!("{t} * ({b} * {c})"), &[], sink);
+                    law("assoc*-offset", format!("({b} * {t}) * {c}"), format!("{b} * ({t} * {c})"), &[], sink);
+                    law("assoc*-offset", format!("({b} * {c}) * {t}"), format!("{b} * ({c} * {t})"), &[], sink);
+                }
             }
         }
         // triples over a core incl. facts
@@ -204,7 +216,7 @@ impl Prop for C13 {
             (Res::Ok { value: lv, unit: lu, .. }, Res::Ok { value: rv, unit: ru, .. }) => {
                 // results that carry a degree are compared with the degree read as an interval on both
                 // sides (the reading is the same on both sides, so the law needs no choice of reading)
-                let interval = case.fam == "a*b-offset";
+                let interval = case.fam.ends_with("-offset");
                 if !interval && (units::has_affine(lu) || units::has_affine(ru)) {
                     return Verdict::DontCare("offset scale");
                 }
